@@ -3,7 +3,6 @@
 //! the child's fate. Used for the by-reference `Sum` / `Product` implementations.
 
 use std::{
-    io::Read,
     process::{Command, Stdio},
     time::{Duration, Instant},
 };
@@ -55,7 +54,14 @@ pub const FIELDS: &[&str] = &[
 
 /// Entry point of the child process.
 pub fn child_main(field: &str, op: &str) -> ! {
+    use std::io::Write;
+
     use midnight_curves::{bls12_381, bn256, curve25519, k256};
+    if !FIELDS.contains(&field) {
+        std::process::exit(3);
+    }
+    println!("started");
+    let _ = std::io::stdout().flush();
     let ok = match field {
         "bls12-381-Fq" => small::<midnight_curves::Fq>(op),
         "bls12-381-Fp" => small::<midnight_curves::Fp>(op),
@@ -78,8 +84,11 @@ pub fn child_main(field: &str, op: &str) -> ! {
     std::process::exit(0)
 }
 
-/// Runs the probe in a child process with a wall-clock limit.
+/// Runs the probe in a child process. The child announces itself with a `started` line before
+/// it evaluates the expression, so process start-up time (which depends on machine load) is not
+/// counted against `limit`.
 pub fn run_child(field: &str, op: &str, limit: Duration) -> Probe {
+    use std::{io::BufRead, sync::mpsc};
     let exe = match std::env::current_exe() {
         Ok(e) => e,
         Err(e) => return Probe::Machinery(format!("current_exe: {e}")),
@@ -88,34 +97,53 @@ pub fn run_child(field: &str, op: &str, limit: Duration) -> Probe {
         Ok(c) => c,
         Err(e) => return Probe::Machinery(format!("spawn: {e}")),
     };
-    let t0 = Instant::now();
-    loop {
-        match child.try_wait() {
-            Ok(Some(status)) => {
-                let mut s = String::new();
-                if let Some(mut o) = child.stdout.take() {
-                    let _ = o.read_to_string(&mut s);
-                }
-                return if status.success() {
-                    match s.trim() {
-                        "ok" => Probe::Ok,
-                        other => Probe::Wrong(other.to_string()),
+    let stdout = child.stdout.take().expect("piped stdout");
+    let (tx, rx) = mpsc::channel::<String>();
+    std::thread::spawn(move || {
+        for line in std::io::BufReader::new(stdout).lines() {
+            match line {
+                Ok(l) => {
+                    if tx.send(l).is_err() {
+                        break;
                     }
-                } else if status.code() == Some(3) {
-                    Probe::Machinery("unknown probe".into())
-                } else {
-                    Probe::Crashed(format!("{status}"))
-                };
-            }
-            Ok(None) => {
-                if t0.elapsed() > limit {
-                    let _ = child.kill();
-                    let _ = child.wait();
-                    return Probe::Timeout;
                 }
-                std::thread::sleep(Duration::from_millis(10));
+                Err(_) => break,
             }
-            Err(e) => return Probe::Machinery(format!("wait: {e}")),
+        }
+    });
+    let finish = |child: &mut std::process::Child| {
+        let _ = child.kill();
+        child.wait().map(|s| format!("{s}")).unwrap_or_else(|e| format!("wait: {e}"))
+    };
+    match rx.recv_timeout(Duration::from_secs(20)) {
+        Ok(l) if l.trim() == "started" => {}
+        Ok(other) => {
+            finish(&mut child);
+            return Probe::Machinery(format!("unexpected first line {other:?}"));
+        }
+        Err(_) => {
+            let st = finish(&mut child);
+            return Probe::Machinery(format!("child did not start ({st})"));
+        }
+    }
+    let t0 = Instant::now();
+    match rx.recv_timeout(limit) {
+        Ok(l) => {
+            let _ = child.wait();
+            match l.trim() {
+                "ok" => Probe::Ok,
+                other => Probe::Wrong(other.to_string()),
+            }
+        }
+        Err(mpsc::RecvTimeoutError::Timeout) => {
+            finish(&mut child);
+            Probe::Timeout
+        }
+        Err(mpsc::RecvTimeoutError::Disconnected) => {
+            // stdout closed without a result: the child died while evaluating
+            let st = child.wait().map(|s| format!("{s}")).unwrap_or_else(|e| format!("wait: {e}"));
+            let _ = t0;
+            Probe::Crashed(st)
         }
     }
 }
